@@ -103,9 +103,29 @@ def budget_case(rng):
                 np_seed=rng.randint(0, 10 ** 6), planted=True)
 
 
+def frozen_indices_case(rng):
+    """listed positions frozen by AvoidChanges(indices=..., location=...) whose location starts before the first index,
+    in a sequence full of sites of a whole-sequence pattern: every free position around them gets edited, the listed
+    ones must come back unchanged (each of the three copies of the view has to freeze the right positions)"""
+    n = rng.randint(12, 30)
+    pat = rng.choice(["2xY", "2xR", "2xS", "2xW", "3xS", "3xW"])
+    cls = {"Y": "CT", "R": "AG", "S": "CG", "W": "AT"}[pat[-1]]
+    seq = "".join(rng.choice(cls) if rng.random() < 0.7 else rng.choice("ATGC") for _ in range(n))
+    idx = sorted(rng.sample(range(2, n - 1), rng.randint(2, 5)))
+    a = rng.randint(0, idx[0] - 1)
+    b = rng.randint(idx[-1] + 1, n)
+    keep = dict(kind="keep_idx", indices=idx if rng.random() < 0.6 else rng.sample(idx, len(idx)), location=[a, b, 1])
+    cons = [keep, dict(kind="pattern", pattern=pat, location=None if rng.random() < 0.5 else [0, n, rng.choice([1, -1, 0])])]
+    if rng.random() < 0.5:
+        cons.reverse()
+    return dict(sequence=seq, constraints=cons, objectives=[], settings=problems.rand_settings(rng),
+                np_seed=rng.randint(0, 10 ** 6), planted=True)
+
+
 def gen_cases(rng, n):
     for i in range(n):
-        yield dict(desc=budget_case(rng) if i % 8 == 5 else rand_case(rng), op="circ_resolve")
+        yield dict(desc=budget_case(rng) if i % 8 == 5 else frozen_indices_case(rng) if i % 8 == 3 else rand_case(rng),
+                   op="circ_resolve")
 
 
 def cyclic_breaches(desc, s):
